@@ -485,3 +485,139 @@ func ruleQuality(c *Ctx) {
 	}
 	c.floor(rule, 6*3)
 }
+
+// ---- record markers ----------------------------------------------------------
+
+// byteCmpConst finds `x[0] == K` (or a switch-free equivalent) in fd.
+func byteCmpConsts(p *packages.Package, fd *ast.FuncDecl) []int64 {
+	var out []int64
+	ast.Inspect(fd.Body, func(n ast.Node) bool {
+		be, ok := n.(*ast.BinaryExpr)
+		if !ok || be.Op != token.EQL {
+			return true
+		}
+		for _, pair := range [][2]ast.Expr{{be.X, be.Y}, {be.Y, be.X}} {
+			if ix, ok := unparen(pair[0]).(*ast.IndexExpr); ok {
+				if i, ok := constInt(p, ix.Index); ok && i == 0 {
+					if k, ok := constInt(p, pair[1]); ok {
+						out = append(out, k)
+					}
+				}
+			}
+		}
+		return true
+	})
+	return out
+}
+
+func ruleMarkers(c *Ctx) {
+	const rule = "tables/markers"
+	// FASTA: reader and writer prefixes are initialised from the same constants
+	{
+		p := c.pkg("io/seqio/fasta")
+		get := func(fn string) map[string]string {
+			fd, _ := c.decl("io/seqio/fasta", fn)
+			m := map[string]string{}
+			ast.Inspect(fd.Body, func(n ast.Node) bool {
+				kv, ok := n.(*ast.KeyValueExpr)
+				if !ok {
+					return true
+				}
+				id, ok := kv.Key.(*ast.Ident)
+				if !ok || (id.Name != "IDPrefix" && id.Name != "SeqPrefix") {
+					return true
+				}
+				if call, ok := unparen(kv.Value).(*ast.CallExpr); ok && len(call.Args) == 1 {
+					if s, ok := constStr(p, call.Args[0]); ok {
+						m[id.Name] = "=" + s
+					}
+				}
+				return true
+			})
+			return m
+		}
+		r, w := get("NewReader"), get("NewWriter")
+		for _, f := range []string{"IDPrefix", "SeqPrefix"} {
+			key := "fasta/" + f + " reader==writer"
+			fd, _ := c.decl("io/seqio/fasta", "NewWriter")
+			switch {
+			case r[f] == "" || w[f] == "":
+				c.und(rule, key, fd.Pos(), "prefix is not initialised from a constant in NewReader/NewWriter")
+			case r[f] != w[f]:
+				c.bad(rule, key, fd.Pos(), fmt.Sprintf("the writer emits %q but the reader classifies on %q", w[f][1:], r[f][1:]))
+			default:
+				c.ok(rule, key, fd.Pos(), fmt.Sprintf("both use %q", r[f][1:]))
+			}
+		}
+		if r["IDPrefix"] != "" && r["IDPrefix"] == r["SeqPrefix"] {
+			c.bad(rule, "fasta/IDPrefix != SeqPrefix", token.NoPos, "identical header and sequence prefixes cannot be told apart")
+		}
+	}
+	// FASTQ: '@' and '+' at the writer's call sites equal what the reader tests
+	{
+		p := c.pkg("io/seqio/fastq")
+		id1, _ := c.decl("io/seqio/fastq", "maybeID1")
+		id2, _ := c.decl("io/seqio/fastq", "maybeID2")
+		k1, k2 := byteCmpConsts(p, id1), byteCmpConsts(p, id2)
+		wr, _ := c.decl("io/seqio/fastq", "(*Writer).Write")
+		whObj := c.obj("io/seqio/fastq", "(*Writer).writeHeader")
+		if len(k1) != 1 || len(k2) != 1 {
+			c.und(rule, "fastq/reader-markers", id1.Pos(), "maybeID1/maybeID2 do not compare the first byte with one constant each")
+			return
+		}
+		var hdr []int64
+		var hdrPos []token.Pos
+		var lits []string
+		var litPos []token.Pos
+		ast.Inspect(wr.Body, func(n ast.Node) bool {
+			call, ok := n.(*ast.CallExpr)
+			if !ok {
+				return true
+			}
+			if calleeOf(p, call) == whObj && len(call.Args) >= 1 {
+				if k, ok := constInt(p, call.Args[0]); ok {
+					hdr = append(hdr, k)
+					hdrPos = append(hdrPos, call.Pos())
+				} else {
+					hdr = append(hdr, -1)
+					hdrPos = append(hdrPos, call.Pos())
+				}
+				return true
+			}
+			if f, ok := calleeOf(p, call).(*types.Func); ok && f.Name() == "Write" && len(call.Args) == 1 {
+				if conv, ok := unparen(call.Args[0]).(*ast.CallExpr); ok && len(conv.Args) == 1 {
+					if s, ok := constStr(p, conv.Args[0]); ok && len(s) >= 2 {
+						lits = append(lits, s)
+						litPos = append(litPos, call.Pos())
+					}
+				}
+			}
+			return true
+		})
+		if len(hdr) != 2 {
+			c.und(rule, "fastq/writer-markers", wr.Pos(), fmt.Sprintf("expected 2 writeHeader call sites in Write, found %d", len(hdr)))
+			return
+		}
+		names := []string{"id line", "quality-id line"}
+		want := []int64{k1[0], k2[0]}
+		for i := range hdr {
+			key := "fastq/" + names[i] + " marker reader==writer"
+			if hdr[i] != want[i] {
+				c.bad(rule, key, hdrPos[i], fmt.Sprintf("the writer starts the %s with %q but the reader expects %q", names[i], rune(hdr[i]), rune(want[i])))
+			} else {
+				c.ok(rule, key, hdrPos[i], fmt.Sprintf("both use %q", rune(want[i])))
+			}
+		}
+		for i, s := range lits {
+			key := "fastq/bare quality-id line literal"
+			if int64(s[0]) != k2[0] || s[len(s)-1] != '\n' || len(s) != 2 {
+				c.bad(rule, key, litPos[i], fmt.Sprintf("the writer emits %q where the reader expects a line consisting of %q", s, rune(k2[0])))
+			} else {
+				c.ok(rule, key, litPos[i], fmt.Sprintf("%q", s))
+			}
+		}
+		if k1[0] == k2[0] {
+			c.bad(rule, "fastq/id1 != id2", id1.Pos(), "identical markers for the two header lines")
+		}
+	}
+}
